@@ -838,6 +838,34 @@ func oracleDecode(r *report, g *G, n int, single string, bounded bool) {
 					r.fail("decode-panic", "R 1 "+trunc(hexs(stream)), fmt.Sprintf("%s: %s", c, trunc(o.verdict())))
 				}
 				r.eval("long-header", true, c)
+				// the same through the readers of the standard library (a decoder may read the
+				// header differently from a reader that offers ReadByte)
+				if k >= 5 && last != 0x7f {
+					for _, nr := range []struct {
+						name string
+						mk   func([]byte) (io.Reader, func() int)
+					}{
+						{"bytes.Reader", func(b []byte) (io.Reader, func() int) { x := bytes.NewReader(b); return x, x.Len }},
+						{"bytes.Buffer", func(b []byte) (io.Reader, func() int) { x := bytes.NewBuffer(append([]byte{}, b...)); return x, x.Len }},
+						{"strings.Reader", func(b []byte) (io.Reader, func() int) { x := strings.NewReader(string(b)); return x, x.Len }},
+						{"bufio.Reader", func(b []byte) (io.Reader, func() int) {
+							u := bytes.NewReader(b)
+							x := bufio.NewReaderSize(u, 16)
+							return x, func() int { return u.Len() + x.Buffered() }
+						}},
+					} {
+						rdn, left := nr.mk(stream)
+						on := readNative(rdn, stream[:6])
+						used := len(stream) - left()
+						if bounded {
+							if on.kind >= 0 || used > 6 {
+								r.fail("header-unbounded", "R 1 "+trunc(hexs(stream)), fmt.Sprintf("%s through %s: consumed %d bytes, result %s", c, nr.name, used, trunc(on.verdict())))
+							}
+						} else if on.panic || on.both || on.none {
+							r.fail("decode-panic", "R 1 "+trunc(hexs(stream)), fmt.Sprintf("%s through %s: %s", c, nr.name, trunc(on.verdict())))
+						}
+					}
+				}
 			}
 		}
 	}
@@ -2361,7 +2389,7 @@ func oracleC10(r *report, g *G, n int, single string) {
 				ks = append(ks, i)
 			}
 		} else {
-			ks = []int{0, 1, len(f) / 2, len(f) - 1, g.pick(len(f))}
+			ks = []int{0, 1, hl, hl + 1, 5 + g.pick(30), len(f) / 2, len(f) - 1, g.pick(len(f))}
 		}
 		for _, kk := range ks {
 			e := injectedErr(1 + g.pick(9))
@@ -2447,6 +2475,12 @@ func oracleC10(r *report, g *G, n int, single string) {
 	for _, bc := range propBoundaryCases(g) {
 		check(bc.k, bc.cs)
 	}
+	// frames above 64 KiB: still one Write, and the count of a writer that gives up anywhere
+	for _, sz := range []int{65535, 65536, 65537, 70000, 200000} {
+		check(3, []string{"SetTopicName:742f62", "SetPayload:" + hexs(g.bytesN(sz))})
+		check(3, []string{"SetTopicName:742f62", "SetQoS:1", "SetPacketID:9", "AddUserProp:6b:76", "SetPayload:" + hexs(g.bytesN(sz))})
+	}
+	check(1, []string{"SetClientID:63", "SetWill:[SetTopicName:74;SetPayload:" + hexs(g.bytesN(65535)) + "]", "SetPassword:" + hexs(g.bytesN(65535))})
 	r.sample(map[string]string{"case": "W 4 S3:7 SetPacketID:1", "expect": "one Write of the whole frame, n=3, err=injected"})
 }
 
